@@ -6,6 +6,7 @@ path-safe component producers.  Anything not understood is UNSAFE (never silentl
 from __future__ import annotations
 
 import ast
+import re
 from dataclasses import dataclass, field
 from typing import Dict, List, Optional, Tuple
 
@@ -168,7 +169,7 @@ class Resolver:
                 return Prov("UNSAFE", why=f"`.parent` of {p}")
             return Prov("UNSAFE", why=f"attribute `{ast.unparse(e)}` has no path-safety argument")
         if isinstance(e, ast.Name):
-            return self._name(e.id, fn, cls, binds)
+            return self._name(e.id, fn, cls, binds, e)
         return Prov("UNSAFE", why=f"expression `{ast.unparse(e)[:60]}`")
 
     @staticmethod
@@ -188,8 +189,18 @@ class Resolver:
         a = fn.args
         return [x.arg for x in a.posonlyargs + a.args + a.kwonlyargs]
 
-    def _name(self, name: str, fn, cls, binds) -> Prov:
+    def _name(self, name: str, fn, cls, binds, use: Optional[ast.AST] = None) -> Prov:
         py = self.py
+        # a use inside `for <name> in ...` refers to that loop's variable, not to other loops reusing the name
+        own_loop = None
+        n0 = use
+        while n0 is not None and n0 in py.parents:
+            n0 = py.parents[n0]
+            if isinstance(n0, ast.For) and isinstance(n0.target, ast.Name) and n0.target.id == name:
+                own_loop = n0
+                break
+            if isinstance(n0, (ast.FunctionDef, ast.AsyncFunctionDef)):
+                break
         if name in binds:
             expr, bfn, bcls, bbinds = binds[name]
             return self.resolve(expr, bfn, bcls, bbinds)
@@ -207,7 +218,12 @@ class Resolver:
                     defs.append(("assign", n.value))
                 elif isinstance(n, (ast.For, ast.comprehension)) and isinstance(n.target, ast.Name) \
                         and n.target.id == name:
-                    defs.append(("iter", n.iter))
+                    if own_loop is not None and n is not own_loop:
+                        continue
+                    if isinstance(n, ast.For) and self._escape_guarded(n, name):
+                        defs.append(("guarded", n.iter))
+                    else:
+                        defs.append(("iter", n.iter))
             is_param = name in self._params(fn)
             results: List[Prov] = []
             for kind, v in defs:
@@ -223,6 +239,8 @@ class Resolver:
                         results.append(self._res_subst(v, fn, cls, binds, sub))
                     else:
                         results.append(self.resolve(v, fn, cls, binds))
+                elif kind == "guarded":
+                    results.append(Prov("PATH", "REL", [f"<{name}: relative, no '..' (guarded in the loop)>"]))
                 else:
                     results.append(self._iter_elements(v, fn, cls, binds))
             if not defs and is_param:
@@ -244,16 +262,33 @@ class Resolver:
                     return self.resolve(st.value, None, None, {})
         return Prov("UNSAFE", why=f"name `{name}` is not defined by anything understood")
 
+    @staticmethod
+    def _escape_guarded(loop: ast.For, name: str) -> bool:
+        """Sanitiser idiom: the first statement of the loop body rejects (continue / raise) every value of the loop
+        variable that is absolute or has a '..' part:  if isabs(x) or '..' in Path(x).parts: ...; continue"""
+        if not loop.body or not isinstance(loop.body[0], ast.If):
+            return False
+        g = loop.body[0]
+        if not g.body or not isinstance(g.body[-1], (ast.Continue, ast.Raise)) or g.orelse:
+            return False
+        t = g.test
+        if not (isinstance(t, ast.BoolOp) and isinstance(t.op, ast.Or)):
+            return False
+        parts = [ast.unparse(v) for v in t.values]
+        has_abs = any(re.fullmatch(rf"(os\.path\.isabs\({name}\)|(pathlib\.)?(Pure)?Path\({name}\)\.is_absolute\(\))", x) for x in parts)
+        has_dots = any(re.fullmatch(rf"'\.\.' in (pathlib\.)?(Pure)?Path\({name}\)\.parts", x) for x in parts)
+        return has_abs and has_dots
+
     def _res_subst(self, v, fn, cls, binds, sub: "_Subst") -> Prov:
         b2 = dict(binds)
         b2[sub.name] = (None, None, None, None)
         # evaluate v with name -> precomputed Prov
         saved = self._name
 
-        def patched(name, fn2, cls2, binds2):
+        def patched(name, fn2, cls2, binds2, use=None):
             if name == sub.name and fn2 is fn:
                 return sub.prov
-            return saved(name, fn2, cls2, binds2)
+            return saved(name, fn2, cls2, binds2, use)
         self._name = patched  # type: ignore
         try:
             return self._res(v, fn, cls, binds)
